@@ -94,6 +94,7 @@ pub fn run_case(ctx: &mut Ctx, case: &Value) {
         "cli-reject" => cli::case_reject(ctx, case),
         "cli-twins" => cli::case_twins(ctx, case),
         "cli-shift" => cli::case_shift(ctx, case),
+        "cli-degenerate" => cli::case_degenerate_cli(ctx, case),
         _ => ctx.fail_corr(case, format!("unknown case op {:?}", op)),
     }
 }
